@@ -18,12 +18,72 @@ def gen_crypto_node(rng, kind, lens):
     return [kind, key, ctr, base], ln
 
 
+class VirtualFile:
+    """a read-only file of astronomic size whose content is a function of the offset (nothing is stored)"""
+
+    def __init__(self, size, seed):
+        self.size, self.seed, self.pos, self.closed = size, seed, 0, False
+        self.written = {}           # sparse overlay: position -> byte
+
+    def content(self, pos, n):
+        import hashlib
+        n = max(0, min(n, self.size - pos))
+        out = bytearray()
+        blk = pos // 32
+        while len(out) < n + pos % 32:
+            out += hashlib.sha256(self.seed + blk.to_bytes(16, 'little')).digest()
+            blk += 1
+        out = bytearray(out[pos % 32:pos % 32 + n])
+        if self.written:
+            for i in range(n):
+                b = self.written.get(pos + i)
+                if b is not None:
+                    out[i] = b
+        return bytes(out)
+
+    def write(self, data):
+        data = bytes(data)[:max(0, self.size - self.pos)]
+        for i, b in enumerate(data):
+            self.written[self.pos + i] = b
+        self.pos += len(data)
+        return len(data)
+
+    def seek(self, pos, whence=0):
+        self.pos = max(0, pos if whence == 0 else (self.pos + pos if whence == 1 else self.size + pos))
+        return self.pos
+
+    def tell(self):
+        return self.pos
+
+    def read(self, n=-1):
+        if n is None or n < 0:
+            n = max(0, self.size - self.pos)
+        d = self.content(self.pos, n)
+        self.pos += len(d)
+        return d
+
+    def readable(self):
+        return True
+
+    def seekable(self):
+        return True
+
+    def writable(self):
+        return True
+
+    def close(self):
+        self.closed = True
+
+
+HUGE = [1 << 32, (1 << 32) * 16, (1 << 36) + 0x123, (1 << 40) - 5, 1 << 44, (1 << 48) + 7, (1 << 63) - 16, (1 << 64) + 3, (1 << 68)]
+
+
 class C01(StackCheck):
     prop = 'C01'
     rule = ('key, counter (incl. carries into the high half and values just below 2^128), flavour 3DS/DSi (chosen by '
             'create_ctr_io from the keyslot number), base BytesIO or SubsectionIO at non-zero offset, stream length '
             '0-100, op lists of 1-12 seek/read/tell with every residue mod 16, sizes -3..len+5, targets inside/at/'
-            'after the end; real side = CryptoEngine.create_ctr_io, model side = CtrIO/TwlIO over the same stack; '
+            'after the end, plus reads at positions beyond 2^32 bytes / 2^32 blocks / 2^64 on a virtual file (monitor only); real side = CryptoEngine.create_ctr_io, model side = CtrIO/TwlIO over the same stack; '
             'monitor = ECB keystream only; non-trivial = some op returned data or raised')
     trusted_base = [
         'Lean 4.33 kernel; axioms propext, Classical.choice, Quot.sound only',
@@ -37,8 +97,73 @@ class C01(StackCheck):
         return 500 if tier == 'quick' else 4000
 
     def gen(self, rng, tier, i):
+        if rng.chance(0.12):
+            # positions far beyond 2^32 bytes / 2^32 blocks, on a file that exists only as a function of the offset
+            ops = []
+            for _ in range(rng.randint(1, 4)):
+                base = rng.pick(HUGE)
+                ops.append(['s', base + rng.pick([0, 1, 5, 15, 16, 17, 0xFF0, -1, -16, -33]), 0])
+                for _ in range(rng.randint(1, 2)):
+                    ops.append(['r', rng.pick([1, 5, 16, 17, 32, 40])])
+                if rng.chance(0.3):
+                    ops.append(['t'])
+            return {'huge': True, 'kind': rng.pick(['ctr', 'ctr', 'twl']), 'key': rng.rbytes(16),
+                    'ctr': rng.pick(CTR_POOL[:3] + [rng.getrandbits(100)]), 'seed': rng.rbytes(8), 'ops': ops}
         node, ln = gen_crypto_node(rng, rng.pick(['ctr', 'twl']), [0, 1, 15, 16, 17, 31, 32, 40, 64, 100])
         return {'node': node, 'ops': gen_ops(rng, ln, writes=False, queries=False)}
+
+    def run_case(self, case, drv):
+        if not case.get('huge'):
+            return super().run_case(case, drv)
+        import envsetup
+        from filestack import ctr_xor
+        from framework import CaseResult
+        e = envsetup.install()
+        eng = e.CryptoEngine()
+        twl = case['kind'] == 'twl'
+        slot = 0x01 if twl else 0x10
+        eng.set_normal_key(slot, case['key'])
+        vf = VirtualFile((1 << 70) + 4096, case['seed'])
+        f = eng.create_ctr_io(slot, vf, case['ctr'])
+        mon, outs = [], []
+        pos = 0
+        for op in case['ops']:
+            try:
+                if op[0] == 's':
+                    pos = f.seek(op[1], op[2])
+                    outs.append(f'n:{pos}')
+                    if pos != op[1]:
+                        mon.append(f'seek({op[1]}) returned {pos}')
+                elif op[0] == 't':
+                    t = f.tell()
+                    outs.append(f'n:{t}')
+                    if t != pos:
+                        mon.append(f'tell() = {t}, expected {pos}')
+                else:
+                    d = f.read(op[1])
+                    outs.append('b:' + d.hex())
+                    ct = vf.content(pos - pos % 16, op[1] + pos % 16)
+                    exp = ctr_xor(case['key'], (case['ctr'] + (pos >> 4)) % (1 << 128), ct, twl)[pos % 16:]
+                    if exp is not None and d != exp:
+                        mon.append(f'read({op[1]}) at {pos:#x}: bytes differ from the whole-stream decryption at that position')
+                    pos += len(d)
+            except Exception as ex:     # noqa
+                outs.append('e:' + type(ex).__name__)
+                mon.append(f'{op} at {pos:#x} raised {type(ex).__name__}')
+                break
+        real = ' '.join(outs)
+        return CaseResult(real, real, mon, 'huge:' + str(case['ops'])[:60], 'ctr.huge' if mon else None, {'stack:huge-' + case['kind']: 1})
+
+    def shrink(self, case):
+        if not case.get('huge'):
+            yield from super().shrink(case)
+            return
+        ops = case['ops']
+        for i in range(len(ops)):
+            if len(ops) > 1:
+                c = dict(case)
+                c['ops'] = ops[:i] + ops[i + 1:]
+                yield c
 
     def exhaustive(self, tier):
         if tier != 'thorough':
